@@ -61,7 +61,7 @@ class MultirangerMemory(MemoryElement):
         else:
             return None
 
-    def read_failed(self, mem, addr):
+    def read_failed(self, mem, addr, data):
         if mem.id == self.id:
             logger.debug('Read failed')
 
